@@ -417,10 +417,15 @@ func c14Batch(w *World, rng *rand.Rand, accs []*Account, nextNonce func() string
 		txFlags = append(txFlags, s.faulty)
 		parts = append(parts, s.script)
 	}
-	if rng.Intn(4) == 0 { // a transaction id that is not pending
-		b.TxIDs = append(b.TxIDs, []byte{0xde, 0xad})
-		txFlags = append(txFlags, true)
-		parts = append(parts, "<unknown tx>")
+	if rng.Intn(3) == 0 { // a transaction id that is not pending: any length from empty to longer than a real one, anywhere in the list
+		id := make([]byte, []int{0, 0, 0, 1, 2, 3, 5, 7, 8, 9, 31, 33}[rng.Intn(12)])
+		for j := range id {
+			id[j] = byte(0xd0 + rng.Intn(40))
+		}
+		at := rng.Intn(len(b.TxIDs) + 1)
+		b.TxIDs = append(b.TxIDs[:at], append([][]byte{id}, b.TxIDs[at:]...)...)
+		txFlags = append(txFlags[:at], append([]bool{true}, txFlags[at:]...)...)
+		parts = append(parts[:at], append([]string{fmt.Sprintf("<unknown tx of %d bytes>", len(id))}, parts[at:]...)...)
 	}
 	for n := rng.Intn(3); n > 0; n-- {
 		id := []byte{byte(0xa0 + rng.Intn(200)%90), byte(rng.Intn(250))}
